@@ -15,7 +15,8 @@
 //   getmut <e> <C> | getconst <e> <C> | dirty <e> <C>
 //                                     -> "access 1 ver=<getWorldVersionOfLastComponentUpdate>" | "access 0"
 //   update                           world.update()                               -> "update w=<version>"
-//   run <j>          -> "run <j> n=<count> ents=<ordinals in processing order> blk=<mask:b-e,..;..> w=<version> last=<v|->"
+//   run <j>          -> "run <j> n=<callbacks> sel=<total_entity_count of the filter> ents=<ordinals in processing order>
+//                        blk=<mask:b-e,..;..> w=<version> last=<v|->"
 //   dump             -> "dump w=<v> | A <mask> cs=<n> size=<n> ents=.. g=<C:v,..> c=<chunk:C:v,..> | ..."
 //
 // Entities are named by creation ordinal, components by the letters A..D. A malformed line aborts (exit 3).
@@ -346,7 +347,8 @@ struct Harness {
             }
         }
         const auto last = job.last();
-        std::printf("run %d n=%zu ents=%s blk=%s w=%u last=%s\n", j, g_processed.size(),
+        std::printf("run %d n=%zu sel=%u ents=%s blk=%s w=%u last=%s\n", j, g_processed.size(),
+                    res.total_entity_count,
                     ents_s.empty() ? "-" : ents_s.c_str(), blk.empty() ? "-" : blk.c_str(),
                     world.version().toInt(), last.isNull() ? "-" : std::to_string(last.toInt()).c_str());
     }
